@@ -20,6 +20,8 @@ VARIABLES
     \* @type: Bool;
     zero,
     \* @type: Int;
+    fdiv,
+    \* @type: Int;
     num,
     \* @type: Int;
     den,
@@ -28,28 +30,30 @@ VARIABLES
     \* @type: Bool;
     rzero
 
-Init == /\ kR = 1 /\ sign = 1 /\ mg = 0 /\ mt = 0 /\ kE = 1 /\ zero = FALSE
+Init == /\ kR = 1 /\ sign = 1 /\ mg = 0 /\ mt = 0 /\ kE = 1 /\ zero = FALSE /\ fdiv = 1
         /\ num = 1 /\ den = 1 /\ shift = 0 /\ rzero = FALSE
 
 ScaleR == \E k \in Int : /\ k >= 1
                          /\ kR' = kR * k /\ den' = den * k
-                         /\ UNCHANGED <<sign, mg, mt, kE, zero, num, shift, rzero>>
+                         /\ UNCHANGED <<sign, mg, mt, kE, zero, num, shift, rzero, fdiv>>
 FlipAngle == /\ sign' = 0 - sign
-             /\ UNCHANGED <<kR, mg, mt, kE, zero, num, den, shift, rzero>>
+             /\ UNCHANGED <<kR, mg, mt, kE, zero, num, den, shift, rzero, fdiv>>
 ShiftBoth == \E m \in Int : /\ mg' = mg + m /\ mt' = mt + m
-                            /\ UNCHANGED <<kR, sign, kE, zero, num, den, shift, rzero>>
+                            /\ UNCHANGED <<kR, sign, kE, zero, num, den, shift, rzero, fdiv>>
 ShiftT0 == \E m \in Int : /\ mt' = mt + m /\ shift' = shift + m
-                          /\ UNCHANGED <<kR, sign, mg, kE, zero, num, den, rzero>>
+                          /\ UNCHANGED <<kR, sign, mg, kE, zero, num, den, rzero, fdiv>>
 ScaleE == \E k \in Int : /\ k >= 1
                          /\ kE' = kE * k /\ num' = num * k
-                         /\ UNCHANGED <<kR, sign, mg, mt, zero, den, shift, rzero>>
+                         /\ UNCHANGED <<kR, sign, mg, mt, zero, den, shift, rzero, fdiv>>
 Zero == /\ ~zero /\ zero' = TRUE /\ rzero' = TRUE
-        /\ UNCHANGED <<kR, sign, mg, mt, kE, num, den, shift>>
-Next == ScaleR \/ FlipAngle \/ ShiftBoth \/ ShiftT0 \/ ScaleE \/ Zero
+        /\ UNCHANGED <<kR, sign, mg, mt, kE, num, den, shift, fdiv>>
+HalveFraction == /\ fdiv' = fdiv * 2 /\ den' = den * 2
+                 /\ UNCHANGED <<kR, sign, mg, mt, kE, zero, num, shift, rzero>>
+Next == HalveFraction \/ ScaleR \/ FlipAngle \/ ShiftBoth \/ ShiftT0 \/ ScaleE \/ Zero
 
-Consistent == /\ num = kE /\ den = kR /\ shift = mt - mg /\ rzero = zero
+Consistent == /\ num = kE /\ den = kR * fdiv /\ fdiv >= 1 /\ shift = mt - mg /\ rzero = zero
               /\ kR >= 1 /\ kE >= 1 /\ (sign = 1 \/ sign = -1)
-IndInit == /\ kR \in Int /\ sign \in Int /\ mg \in Int /\ mt \in Int /\ kE \in Int /\ zero \in BOOLEAN
+IndInit == /\ kR \in Int /\ sign \in Int /\ mg \in Int /\ mt \in Int /\ kE \in Int /\ zero \in BOOLEAN /\ fdiv \in Int
            /\ num \in Int /\ den \in Int /\ shift \in Int /\ rzero \in BOOLEAN
            /\ Consistent
 =============================================================================
